@@ -10,6 +10,9 @@ import Cmr.Pivot
 import Cmr.Regular
 import Cmr.Stack
 import Cmr.Graph
+import Cmr.SP
+import Cmr.Balanced
+import Cmr.Equimod
 namespace Cmr
 
 inductive Verdict where
@@ -463,6 +466,228 @@ def judgeRepmat : P Verdict := do
     if ok1 && ok2 then return .ok name
     else return .fail name s!"impl={(dm.map (fun x => matToString x.2.2)).getD "-"} model={matToString C}"
 
+
+/-! ### series-parallel -/
+
+open P in
+def judgeSp : P Verdict := do
+  let kind ← tok
+  let fn ← tok
+  let outs ← nat
+  let maxred ← idx
+  let (m, n, M) ← denseMat
+  expect "=>"
+  let status ← tok
+  let ternary := kind != "bin"
+  let tag := s!"sp:{kind}:{fn}"
+  if status != "ok" then return .fail tag s!"status {status}"
+  let v ← tok
+  -- reductions
+  let rt ← tok
+  let mut reds : Option (Option (List Reduction)) := none     -- none: not requested; some none: SIZE_MAX (cut short)
+  if rt == "R" then
+    let cnt ← idx
+    match cnt with
+    | none => reds := some none
+    | some k =>
+      let l ← many (do let e ← int; let mt ← int; pure (⟨e, mt⟩ : Reduction)) k
+      reds := some (some l)
+  let reduced? ← submat
+  let viol? ← submat
+  -- separation
+  let st ← tok
+  let mut sepa : Option (Nat × Nat × Nat × List Nat × List Nat) := none
+  if st == "P" then
+    let sr ← nat; let sc ← nat; let ty ← nat
+    let rf ← many nat sr
+    let cf ← many nat sc
+    sepa := some (sr, sc, ty, rf, cf)
+  let valid := if ternary then isTernary M else isBinary M
+  if !valid then return .skip s!"{tag}:invalid-input"
+  let allR := List.range m
+  let allC := List.range n
+  let cut : Bool := fn == "dec" && maxred.isSome     -- maxNumReductions given: the run may stop early
+  -- verdict
+  let small := m + n ≤ 9
+  let expected := if small then spSearch ternary M (m + n) allR allC else isSPgreedy ternary m n M
+  if small && expected != isSPgreedy ternary m n M then
+    return .fail "sp:model" "greedy and exhaustive search disagree (confluence violated in the model?)"
+  if outs % 2 == 1 && !(cut && reds == some none) then
+    if v == "?" then return .fail s!"{tag}:verdict" "verdict requested but not reported"
+    if (v == "yes") != expected && !cut then
+      return .fail s!"{tag}:verdict" s!"impl={v} model={if expected then "yes" else "no"} outs={outs}"
+  -- reductions valid one after another
+  let mut remaining : Option (List Nat × List Nat) := none
+  match reds with
+  | some (some l) =>
+    match applyReductions ternary M allR allC l 0 with
+    | .error k => return .fail s!"{tag}:reduction" s!"reduction #{k} {repr (l.getD k ⟨0,0⟩)} is not a valid zero/unit/copy reduction at that point"
+    | .ok (R, C) =>
+      remaining := some (R, C)
+      if !cut then
+        if !irreducible ternary M R C then
+          return .fail s!"{tag}:reduction" s!"reported reductions are not maximal: remaining rows {R} columns {C} still reducible"
+        if expected != (R.isEmpty && C.isEmpty) then
+          return .fail s!"{tag}:reduction" "reductions empty the matrix iff series-parallel violated"
+  | _ => pure ()
+  -- reduced submatrix = what the reductions leave, irreducible
+  match reduced? with
+  | some (rsI, csI) =>
+    match idxList rsI m, idxList csI n with
+    | some rs, some cs =>
+      if !(noDup rs && noDup cs) then return .fail s!"{tag}:reduced" "reduced submatrix repeats a line"
+      match remaining with
+      | some (R, C) =>
+        if !(rs.all R.contains && R.all rs.contains && cs.all C.contains && C.all cs.contains) then
+          return .fail s!"{tag}:reduced" s!"reduced submatrix rows {rs} cols {cs} differs from what the reductions leave: rows {R} cols {C}"
+      | none => pure ()
+      if !cut && !irreducible ternary M rs cs then
+        return .fail s!"{tag}:reduced" s!"reduced submatrix rows {rs} cols {cs} admits a further reduction"
+      if !cut && (rs.isEmpty && cs.isEmpty) != expected then
+        return .fail s!"{tag}:reduced" "reduced submatrix empty iff series-parallel violated"
+      -- separation refers to the reduced submatrix
+      match sepa with
+      | some (sr, sc, _ty, rf, cf) =>
+        if sr != rs.length || sc != cs.length then return .fail s!"{tag}:separation" "separation dimensions differ from reduced submatrix"
+        let part (flags : List Nat) (ids : List Nat) (p : Nat) := (ids.zip flags).filterMap (fun (i, f) => if f % 2 == p then some i else none)
+        let R1 := part rf rs 0; let R2 := part rf rs 1; let C1 := part cf cs 0; let C2 := part cf cs 1
+        if !is2Separation M R1 C1 R2 C2 then
+          return .fail s!"{tag}:separation" s!"not a 2-separation of the reduced matrix: first rows {R1} cols {C1}, second rows {R2} cols {C2}"
+      | none => pure ()
+    | _, _ => return .fail s!"{tag}:reduced" "reduced submatrix indices out of range"
+  | none => pure ()
+  -- violator
+  match viol? with
+  | some (rsI, csI) =>
+    match idxList rsI m, idxList csI n with
+    | some rs, some cs =>
+      if rs.length != cs.length || !(noDup rs && noDup cs) then return .fail s!"{tag}:violator" "violator not square / repeats a line"
+      if !isSPViolator ternary (sub M rs cs) rs.length then
+        return .fail s!"{tag}:violator" s!"rows {rs} cols {cs}: {matToString (sub M rs cs)} is not M_2, M_3' or a cycle matrix"
+      if expected && !cut then return .fail s!"{tag}:violator" "violator returned for a series-parallel matrix"
+    | _, _ => return .fail s!"{tag}:violator" "violator indices out of range"
+  | none =>
+    if outs / 8 % 2 == 1 && !expected && !cut && sepa.isNone && fn == "test" then
+      return .fail s!"{tag}:violator" "not series-parallel, violator requested, none returned"
+  return .ok s!"{tag}:{v}:{if reds.isSome then "R" else ""}{if reduced?.isSome then "S" else ""}{if viol?.isSome then "V" else ""}{if sepa.isSome then "P" else ""}"
+
+/-! ### Camion -/
+
+/-- C09 violator: square, in range, two nonzeros per line, determinant ±2 -/
+def camionViolatorOk (m n : Nat) (M : Mat) (rsI csI : List Int) : Bool :=
+  match idxList rsI m, idxList csI n with
+  | some rs, some cs =>
+    rs.length == cs.length && noDup rs && noDup cs && rs.length ≤ 9 &&
+    twoPerLine (sub M rs cs) rs.length && (let d := detL rs.length (sub M rs cs); d == 2 || d == -2)
+  | _, _ => false
+
+open P in
+def judgeCamionx : P Verdict := do
+  let wantsub ← nat
+  let (m, n, M) ← denseMat
+  expect "=>"
+  let status ← tok
+  if status != "ok" then return .fail "camion" s!"status {status}"
+  let t ← tok
+  let sub1 ← submat
+  let w ← tok
+  let sub2 ← submat
+  let some A ← csr | return .fail "camion" "no signed matrix"
+  let t2 ← tok
+  let idem ← tok
+  if !isTernary M then return .skip "camion:nonternary"
+  match checkCsr A m n with
+  | .error e => return .fail "camion:csr" e
+  | .ok S =>
+    if support S != support M then return .fail "camion:support" s!"signing changed the support: {matToString S}"
+    if !isTernary S then return .fail "camion:support" "signed matrix not ternary"
+    if t2 != "t2=yes" then return .fail "camion:test-of-signed" "output of signing fails the signedness test"
+    if idem != "idem=1" then return .fail "camion:idempotent" "signing the signed matrix changed it"
+    let tYes := t == "t=yes"
+    if tYes != (S == M) then return .fail "camion:test-iff-unchanged" s!"test says {t} but signing {if S == M then "leaves" else "changes"} the matrix"
+    if (w == "w=yes") != tYes then return .fail "camion:was-signed" s!"wasCamionSigned={w} but test={t}"
+    if wantsub == 1 then
+      for s in [sub1, sub2] do
+        match s with
+        | some (rs, cs) =>
+          if tYes then return .fail "camion:violator" "violator returned for a Camion-signed matrix"
+          if !camionViolatorOk m n M rs cs then return .fail "camion:violator" s!"rows {rs} cols {cs} is not a square submatrix with two nonzeros per line and det ±2"
+        | none => if !tYes then return .fail "camion:violator" "not Camion-signed, violator requested, none returned"
+    if m ≤ 6 && n ≤ 6 then
+      let tu := isTU m n M
+      if tu && !tYes then return .fail "camion:tu-implies-signed" "totally unimodular matrix reported as not Camion-signed"
+      if isRegular n (support M) then
+        if !isTU m n S then return .fail "camion:regular-gives-tu" s!"support is regular but the signed matrix {matToString S} is not TU"
+        if tYes && !tu then return .fail "camion:regular-signed-tu" "regular support, Camion-signed, yet not TU"
+        return .ok s!"camion:regular:{t}"
+      return .ok s!"camion:irregular:{t}"
+    return .ok s!"camion:large:{t}"
+
+/-! ### balanced -/
+
+open P in
+def judgeBalanced : P Verdict := do
+  let alg ← nat; let _sp ← nat; let _preset ← nat; let wantsub ← nat
+  let (m, n, M) ← denseMat
+  expect "=>"
+  let status ← tok
+  if alg == 2 then
+    -- the graph-based algorithm is documented as not implemented: an error status and no answer
+    if status.startsWith "err:" then return .ok "balanced:graph-alg-rejected"
+    else return .fail "balanced:graph-alg" s!"graph algorithm is not implemented but status is {status}"
+  if status != "ok" then return .fail "balanced" s!"status {status}"
+  let v ← tok
+  let sub? ← submat
+  if m > 7 || n > 7 then return .skip "balanced:large"
+  let expected := isBalanced m n M
+  if (v == "yes") != expected then return .fail "balanced:verdict" s!"impl={v} model={if expected then "yes" else "no"}"
+  if !expected && wantsub == 1 && isTernary M then
+    match sub? with
+    | none => return .fail "balanced:violator" "not balanced, violator requested, none returned"
+    | some (rsI, csI) =>
+      match idxList rsI m, idxList csI n with
+      | some rs, some cs =>
+        if rs.length == cs.length && noDup rs && noDup cs && isUnbalancedHole (sub M rs cs) rs.length then return .ok "balanced:no:violator"
+        else return .fail "balanced:violator" s!"rows {rs} cols {cs}: not a square submatrix with two nonzeros per line and entry sum = 2 mod 4"
+      | _, _ => return .fail "balanced:violator" "indices out of range"
+  return .ok s!"balanced:{v}{if isTernary M then "" else ":nonternary"}"
+
+/-! ### equimodular -/
+
+def equimodExpected (m n : Nat) (M : Mat) (fn : String) (k0 : Int) : List (Bool × Int) :=
+  -- all admissible answers (one per column basis); normally a single value
+  let single (m n : Nat) (M : Mat) (req : Int) : List (Bool × Int) :=
+    (equimodularAll m n M).map fun (e, k) =>
+      if req != 0 && req != (k : Int) then (false, (k : Int)) else if e then (true, (k : Int)) else (false, 0)
+  let strong (req : Int) : List (Bool × Int) :=
+    (single m n M req).flatMap fun (e1, k1) =>
+      if !e1 then [(false, k1)] else (single n m (transpose m n M) k1)
+  (match fn with
+    | "e" => single m n M k0
+    | "es" => strong k0
+    | "u" => (single m n M 1).map (fun (p : Bool × Int) => (p.1, (-1 : Int)))
+    | _ => (strong 1).map (fun (p : Bool × Int) => (p.1, (-1 : Int)))).eraseDups
+
+open P in
+def judgeEquimod : P Verdict := do
+  let fn ← tok
+  let k0 ← int
+  let (m, n, M) ← denseMat
+  expect "=>"
+  let status ← tok
+  let big := M.any (fun r => r.any (fun x => x ≥ 1000 || x ≤ -1000))
+  if status == "err:OVERFLOW" then
+    if big then return .ok "equimod:overflow" else return .fail "equimod:overflow" "overflow reported for small entries"
+  if status != "ok" then return .fail "equimod" s!"status {status}"
+  let v ← tok
+  let k ← int
+  if m > 4 || n > 4 || big then return .skip "equimod:large"
+  let exp := equimodExpected m n M fn k0
+  -- the value stored for a negative answer is not specified by the documentation: only the verdict is compared then
+  if v != "yes" && exp.any (fun p => !p.1) then return .ok s!"equimod:{fn}:no"
+  if exp.contains (v == "yes", k) then return .ok s!"equimod:{fn}:{v}:{if k > 1 then "k>1" else s!"k={k}"}"
+  else return .fail s!"equimod:{fn}" s!"impl=({v},{k}) model={repr exp}"
+
 /-! ### dispatcher -/
 
 def runP (p : P Verdict) (toks : List String) : Verdict :=
@@ -479,7 +704,7 @@ def judgeLine (line : String) : Verdict :=
     -- strip "@…" modifiers
     let op := L.op.dropWhile (·.startsWith "@")
     let toks := op.drop 1 ++ ["=>", L.status] ++ L.payload
-    let isCamionSign := op.take 2 == ["camion", "sign"]
+    let isCamionSign := op.take 2 == ["camion", "sign"] || op.headD "" == "camionx"
     let generic : Option (String × String) :=
       match parseTrailer L.trailer with
       | none => some ("trailer", "missing trailer")
@@ -493,6 +718,10 @@ def judgeLine (line : String) : Verdict :=
       | "pivot" => runP judgePivot toks
       | "mat" => runP judgeMat toks
       | "stack" => judgeStack (op.drop 1) L.status L.payload
+      | "sp" => runP judgeSp toks
+      | "camionx" => runP judgeCamionx toks
+      | "balanced" => runP judgeBalanced toks
+      | "equimod" => runP judgeEquimod toks
       | "graphic" => runP judgeGraphic toks
       | "network" => runP judgeNetwork toks
       | "repmat" => runP judgeRepmat toks
